@@ -582,6 +582,15 @@ def r12b(ctx):
                         fields |= set(place_fields(pl))
         users[fn] = any(f.endswith('aliases') for f in fields)
     ok = bool(stores) and bool(from_group) and len(users) == 2 and all(users.values())
+    # ... which covers the input paths that were ARGUMENTS of `group`: the header records the command line, not the list that `group --stdin` read. For
+    # those the walk found the aliases (Walk::run registers every input path), but the report does not carry them to the dedupe commands
+    hdr = lib.adts.get('report::ReportHeader') or {}
+    hfields = [f for v in hdr.get('variants', []) for f, _ in v.get('fields', [])]
+    ctx.check(any('alias' in f for f in hfields), rule, 'report::ReportHeader|aliases-of-stdin-paths-recorded', rd.where(),
+              'the report header carries the aliases of the input paths that the walk found',
+              'the dedupe commands learn the aliases of the input paths from the `group` command line recorded in the header; with `group --stdin` the header says just `fclones group --stdin`, so '
+              '`find photos/ -type f | fclones group --stdin > rep; fclones remove --keep-path "ph*/originals/**" < rep` (photos -> disk) removes disk/originals/a.jpg, the file the user calls '
+              'photos/originals/a.jpg and that `group --stdin --path "ph*/originals/**"` selects')
     ctx.check(ok, rule, 'bin::run_dedupe|dedupe-side-aliases', (from_group[0].where() if from_group else rd.where()),
               'run_dedupe takes the aliases of the input paths from the recorded group command (%s) and should_keep / may_drop match every name of a path' % (from_group[0].path.rsplit('::', 1)[-1] if from_group else '-'),
               'only `group` knows that a file below an input path that is a symbolic link has two names: the dedupe commands match --keep-path / --path against the reported (resolved) path only - with '
